@@ -123,9 +123,15 @@ impl C01 {
         let mut cmds = vec![Cmd::Ping];
         let mut actions = vec![];
         cmd_of_len(&mut g, kind, plen, 7, &mut cmds, &mut actions);
-        cmds.push(Cmd::Query { text: Blob::text("SELECT after") });
-        actions.push(Action::Result(Program::completed(1, 2)));
+        // half of the cases end with the big command (a client that waits for its reply), the
+        // others have a command pipelined behind it
+        let trailing = seed % 2 == 0;
+        if trailing {
+            cmds.push(Cmd::Query { text: Blob::text("SELECT after") });
+            actions.push(Action::Result(Program::completed(1, 2)));
+        }
         let mut c = finish_case(&mut g, cmds, actions, true);
+        c.conv.lockstep = !trailing && seed % 4 == 1;
         // explicit schedule classes for the windows
         c.conv.sched.sizes = match sched_class % 6 {
             0 => vec![1],
@@ -148,7 +154,7 @@ impl Prop for C01 {
         "C01"
     }
     fn rule(&self) -> String {
-        "cases = 1-8 client commands (QUERY/PREPARE/INIT_DB text payloads, SEND_LONG_DATA+EXECUTE raw payloads) with payload lengths from classes {1-16, 4086-4100, 8180-8196, 65533-65537, random<20000, k*(2^24-1)+d} x a chunk schedule (one read, 1-byte reads, tiny reads, random sizes, exact messages, k messages + partial header, cuts inside headers; for >=16 MiB payloads 1-5 byte reads inside windows around every packet header). Non-trivial = some read() boundary fell strictly inside a 4-byte packet header, or some command's bytes were delivered by >= 2 reads (measured from the transport's operation log). Distinct = distinct serialised case.".into()
+        "cases = 1-8 client commands (QUERY/PREPARE/INIT_DB text payloads, SEND_LONG_DATA+EXECUTE raw payloads) with payload lengths from classes {1-16, 4086-4100, 8180-8196, 65533-65537, random<20000, k*(2^24-1)+d} x a chunk schedule (one read, 1-byte reads, tiny reads, random sizes, exact messages, k messages + partial header, cuts inside headers; for >=16 MiB payloads 1-5 byte reads inside windows around every packet header), with the client either pipelining everything or (1 in 3) sending each command only after the previous reply; the enumerated large commands are followed by another command in half of the cases and are the last thing sent in the other half. Non-trivial = some read() boundary fell strictly inside a 4-byte packet header, or some command's bytes were delivered by >= 2 reads (measured from the transport's operation log). Distinct = distinct serialised case.".into()
     }
     fn assumptions(&self) -> Vec<String> {
         vec!["payloads beyond ~2*(2^24-1)+70000 bytes are not explored".into(), "the recording shim iterates all parameters of every execution".into()]
@@ -182,7 +188,11 @@ impl Prop for C01 {
         if g.chance(1, 3) {
             cmds.push(Cmd::Quit);
         }
-        finish_case(g, cmds, actions, false)
+        let mut c = finish_case(g, cmds, actions, false);
+        // a client that sends each command only after the previous reply (the chunk schedule then
+        // applies within what has been released)
+        c.conv.lockstep = g.chance(1, 3);
+        c
     }
     fn fixed(&self, tier: Tier) -> Vec<Case> {
         let mut v = Vec::new();
@@ -254,6 +264,13 @@ impl Prop for C01 {
         }
         ex.class(format!("schedule:{}", describe_schedule(&c.sched)));
 
+        if c.lockstep {
+            ex.class("lock-step");
+        }
+        if o.would_block {
+            ex.fail("c01-command-not-delivered", format!("the server waits for more input although a complete command has arrived and its reply is still owed ({} of {} bytes consumed, {} callbacks so far)", o.consumed, o.inbound_len, o.events.len()));
+            return ex;
+        }
         if !o.result.is_ok() {
             ex.fail("c01-run-result", format!("run_on returned {} for a well-formed conversation", o.result.brief()));
             return ex;
